@@ -58,6 +58,7 @@ from collections.abc import Callable, Iterable
 
 from solvor.rust import with_rust_backend
 from solvor.types import Result, Status
+from solvor.utils.helpers import recursion_limit
 
 __all__ = [
     "strongly_connected_components",
@@ -117,9 +118,10 @@ def strongly_connected_components[S](
                     break
             components.append(component)
 
-    for v in node_list:
-        if v not in index:
-            strongconnect(v)
+    with recursion_limit(len(node_list) + 2):  # a DFS path can visit every node
+        for v in node_list:
+            if v not in index:
+                strongconnect(v)
 
     return Result(components, len(components), iterations, len(node_list))
 
